@@ -87,3 +87,72 @@ Definition race : list (nat * nat) :=
 Theorem p2_refuted : let s := run_sched [1; 2] (init 2) race in
   p2 s = false /\ map (fun p => pc_code (p_pc p)) (procs s) = [15; 10] /\ att s = None /\ pin s = None.
 Proof. vm_compute. auto. Qed.
+
+(* ---------------- three participants: a structural closure proof ----------------
+   The reachable set is large (25860 states); membership of a successor is looked up through an index
+   (code of the state -> position in a two-level list).  The index is NOT trusted: the state found at that
+   position is compared structurally (st_eqb), and being at a position of the list is what puts it in the set. *)
+From Coq Require Import FSets.FMapPositive.
+
+Fixpoint chunks (fuel size : nat) (l : list st) : list (list st) :=
+  match fuel with
+  | O => [l]
+  | S f => match l with [] => [] | _ => firstn size l :: chunks f size (skipn size l) end
+  end.
+
+Definition index_of (R2 : list (list st)) : PositiveMap.t (nat * nat) :=
+  fst (fold_left (fun acc row =>
+         let '(m, i) := acc in
+         (fst (fold_left (fun acc' s => let '(m', j) := acc' in (PositiveMap.add (Z.to_pos (code s)) (i, j) m', S j)) row (m, 0%nat)), S i))
+       R2 (PositiveMap.empty _, 0%nat)).
+
+Definition member (R2 : list (list st)) (idx : PositiveMap.t (nat * nat)) (s : st) : bool :=
+  match PositiveMap.find (Z.to_pos (code s)) idx with
+  | Some (i, j) => match nth_error R2 i with
+                   | Some row => match nth_error row j with Some r => st_eqb s r | None => false end
+                   | None => false
+                   end
+  | None => false
+  end.
+
+Lemma member_in R2 idx s : member R2 idx s = true -> In s (concat R2).
+Proof.
+  unfold member. destruct (PositiveMap.find _ idx) as [[i j]|]; [|discriminate].
+  destruct (nth_error R2 i) as [row|] eqn:Ei; [|discriminate].
+  destruct (nth_error row j) as [r|] eqn:Ej; [|discriminate].
+  intros H. apply st_eqb_eq in H. subst r. apply in_concat. exists row. split; eapply nth_error_In; eauto.
+Qed.
+
+Definition closed2 (choices : list Z) (R2 : list (list st)) (idx : PositiveMap.t (nat * nat)) : bool :=
+  forallb (fun row => forallb (fun s => forallb (member R2 idx) (successors choices s)) row) R2.
+
+Theorem closed2_sound choices R2 idx s0 : closed2 choices R2 idx = true -> In s0 (concat R2) ->
+  forall sched, In (run_sched choices s0 sched) (concat R2).
+Proof.
+  intros HC H0 sched. revert s0 H0. induction sched as [|[k c] tl IH]; intros s0 H0; cbn [run_sched]; [exact H0|].
+  destruct (nth_error (step_proc choices s0 k) c) as [s'|] eqn:E; [|apply IH; exact H0].
+  apply IH. apply in_concat in H0 as (row & Hrow & Hs). unfold closed2 in HC. rewrite forallb_forall in HC.
+  specialize (HC row Hrow). rewrite forallb_forall in HC. specialize (HC s0 Hs). rewrite forallb_forall in HC.
+  apply (member_in R2 idx). apply HC. eapply step_in_successors; eauto.
+Qed.
+
+
+Definition R3 : list (list st) := chunks 400 160 (reach 3 [1; 2]).
+Definition I3 := index_of R3.
+Lemma R3_closed : closed2 [1; 2] R3 I3 = true. Proof. vm_compute. reflexivity. Qed.
+Lemma R3_member : member R3 I3 (init 3) = true. Proof. vm_compute. reflexivity. Qed.
+Lemma R3_init : In (init 3) (concat R3). Proof. exact (member_in R3 I3 (init 3) R3_member). Qed.
+Lemma R3_inv : forallb (fun row => forallb (fun s => p1 s && p3 s) row) R3 = true. Proof. vm_compute. reflexivity. Qed.
+#[global] Opaque R3 I3.
+Theorem three_participants_safe : forall sched,
+  p1 (run_sched [1; 2] (init 3) sched) = true /\ p3 (run_sched [1; 2] (init 3) sched) = true.
+Proof.
+  intros sched.
+  assert (H := closed2_sound [1; 2] R3 I3 (init 3) R3_closed R3_init sched).
+  destruct (proj1 (in_concat R3 _) H) as (row & Hrow & Hs).
+  assert (I := proj1 (forallb_forall _ R3) R3_inv row Hrow).
+  cbv beta in I.
+  assert (J := proj1 (forallb_forall _ row) I _ Hs).
+  cbv beta in J.
+  apply andb_true_iff in J. exact J.
+Qed.
